@@ -2013,6 +2013,12 @@ class Interp:
                     add(x)
             elif isinstance(v, Ref) and hasattr(v, "cont"):
                 add(v.cont)
+            elif isinstance(v, Ref) and v.kind == "var" and id(v) not in seen:
+                seen.add(id(v))
+                add(v.env.get(v.id))        # a reference parameter bound to a variable of the caller
+            elif isinstance(v, Ref) and v.kind == "field" and id(v) not in seen:
+                seen.add(id(v))
+                add(v.struct.f.get(v.name) if hasattr(v.struct, "f") else None)
 
         for v in list(self.heap.values()) + list(env.values()):
             add(v)
